@@ -137,6 +137,8 @@ struct Spec {
     feu: EnergyUnit,
     edges: Vec<(usize, f64)>,
     bcd: f64,
+    /// the two vertices `estimate_traversal` is asked about (x, y in degrees)
+    od: ((f32, f32), (f32, f32)),
 }
 
 fn rec_line(r: &RecSpec) -> String {
@@ -199,8 +201,9 @@ fn case_line(sp: &Spec) -> String {
     for (id, d) in &sp.edges {
         edges.push_str(&format!(" {} {}", id, fbits(*d)));
     }
+    let hm = haversine_m(sp);
     format!(
-        "{} {} {} {} {} {} {} {} {} {} {} {} {} {} {} {}",
+        "{} {} {} {} {} {} {} {} {} {} {} {} {} {} {} {} {}",
         veh,
         q,
         sp.tmsu,
@@ -216,8 +219,19 @@ fn case_line(sp: &Spec) -> String {
         sp.flu,
         sp.feu,
         edges,
-        fbits(sp.bcd)
+        fbits(sp.bcd),
+        fbits(hm)
     )
+}
+
+/// the great-circle distance of the case's vertex pair in metres, from the real haversine code (the
+/// model takes it as data)
+fn haversine_m(sp: &Spec) -> f64 {
+    let src = Vertex::new(0, sp.od.0 .0, sp.od.0 .1);
+    let dst = Vertex::new(1, sp.od.1 .0, sp.od.1 .1);
+    routee_compass_core::util::geo::haversine::coord_distance_meters(&src.coordinate, &dst.coordinate)
+        .expect("haversine")
+        .as_f64()
 }
 
 /// the stub prediction model: converts its arguments to its own units exactly as the bundled
@@ -318,6 +332,9 @@ struct Outcome {
     last: Obs,
     bc: Option<(f64, EnergyUnit)>,
     bcs: Obs,
+    /// state after `estimate_traversal` from `last` (None: error)
+    est: Option<Obs>,
+    engine_rejected: bool,
 }
 
 fn execute(sp: &Spec) -> (String, Outcome) {
@@ -349,13 +366,21 @@ fn execute(sp: &Spec) -> (String, Outcome) {
     let mut library: HashMap<String, Arc<dyn VehicleType>> = HashMap::new();
     library.insert(name.clone(), vehicle);
     let speed_table: Box<[Speed]> = sp.speeds.iter().map(|s| Speed::new(*s)).collect();
-    let max_speed = sp.speeds.iter().cloned().fold(0.0, f64::max);
+    let mut out = Outcome { rejected: false, init: Obs::default(), steps: vec![], last: Obs::default(), bc: None, bcs: Obs::default(), est: None, engine_rejected: false };
+    let max_speed = match routee_compass_core::model::traversal::default::speed_traversal_engine::get_max_speed(&speed_table) {
+        Ok(m) => m,
+        Err(_) => {
+            out.rejected = true;
+            out.engine_rejected = true;
+            return ("engine_rejected".to_string(), out);
+        }
+    };
     let engine = SpeedTraversalEngine {
         speed_table,
         speed_unit: sp.esu,
         time_unit: sp.etu,
         distance_unit: sp.edu,
-        max_speed: Speed::new(max_speed),
+        max_speed,
     };
     let grade_table: Option<Box<[Grade]>> = sp.grades.as_ref().map(|g| g.iter().map(|x| Grade::new(*x)).collect());
     let service = EnergyModelService {
@@ -374,7 +399,6 @@ fn execute(sp: &Spec) -> (String, Outcome) {
         Query::Num(x) => conf["starting_soc_percent"] = serde_json::json!(*x),
         Query::Int(i) => conf["starting_soc_percent"] = serde_json::json!(*i),
     }
-    let mut out = Outcome { rejected: false, init: Obs::default(), steps: vec![], last: Obs::default(), bc: None, bcs: Obs::default() };
     let model = match EnergyTraversalModel::new(Arc::new(service), &conf) {
         Ok(m) => m,
         Err(_) => {
@@ -456,6 +480,24 @@ fn execute(sp: &Spec) -> (String, Outcome) {
         }
         Err(_) => parts.push("bcs err".to_string()),
     }
+    let src = Vertex::new(0, sp.od.0 .0, sp.od.0 .1);
+    let dst = Vertex::new(1, sp.od.1 .0, sp.od.1 .1);
+    let mut st3 = state.clone();
+    match model.estimate_traversal((&src, &dst), &mut st3, &sm) {
+        Ok(()) => {
+            let o = read_state(sp, &sm, &st3);
+            parts.push(format!("est ok {}", show(sp, &o)));
+            out.est = Some(o);
+        }
+        Err(e) => {
+            let k = match e {
+                TraversalModelError::UnitsFailure { .. } => "units",
+                TraversalModelError::TraversalModelFailure(_) => "failure",
+                _ => "other",
+            };
+            parts.push(format!("est err {}", k));
+        }
+    }
     (parts.join(" | "), out)
 }
 
@@ -484,6 +526,9 @@ fn expected_energy(sp: &Spec, r: &RecSpec, id: usize, d_m: f64) -> (f64, f64) {
 
 fn oracle(ctx: &mut Ctx, idx: usize, sp: &Spec, oc: &Outcome) {
     let battery = sp.kind != Kind::Ice;
+    if oc.engine_rejected {
+        return;
+    }
     // --- rejection of the starting charge
     let q: Option<f64> = match &sp.query {
         Query::Num(x) => Some(*x),
@@ -684,6 +729,24 @@ fn oracle(ctx: &mut Ctx, idx: usize, sp: &Spec, oc: &Outcome) {
             }
         }
     }
+    // --- estimate_traversal: the energy that orders the search is the ideal rate x the great-circle distance
+    if let Some(o) = &oc.est {
+        let r = &sp.rec;
+        let hm = haversine_m(sp);
+        let bu = r.ru.associated_energy_unit();
+        let want = r.ideal * (hm / si_d(&r.ru.associated_distance_unit()));
+        let (fu, p_acc, c_acc) = if sp.kind == Kind::Ice { (sp.flu, oc.last.liquid, o.liquid) } else { (sp.feu, oc.last.electric, o.electric) };
+        let e_f = conv_e(&bu, &fu, want);
+        let delta = c_acc - p_acc;
+        let tol = 2.0 * TABLE_TOL * e_f.abs() + 16.0 * EPS * (p_acc.abs() + c_acc.abs()) + 1e-300;
+        if !((delta - e_f).abs() <= tol) {
+            let key = if battery && !same_e(&bu, &sp.bunit) { "best_case_energy_state/unit-mix" } else { "estimate/best-case" };
+            ctx.fail(idx, key, format!("estimate over {} m: feature went from {} to {} {} but ideal rate {} {} x distance = {} {}", hm, p_acc, c_acc, fu, r.ideal, r.ru, e_f, fu));
+        }
+        if battery && !(o.soc >= 0.0 && o.soc <= 100.0) {
+            ctx.fail(idx, "soc/out-of-bounds", format!("estimate_traversal: charge {}", o.soc));
+        }
+    }
 }
 
 // ---------------------------------------------------------------------------------------------
@@ -845,7 +908,7 @@ fn generate(rng: &mut Rng) -> Spec {
     let mut need = 0.0;
     let tmp = Spec {
         kind, rec: rec.clone(), sustain: None, cap: 1.0, bunit, query: Query::Absent, tmsu, grades: grades.clone(), ggu, sdu,
-        speeds: speeds.clone(), esu, edu, etu, ftu: etu, fdu: edu, flu: bunit, feu: bunit, edges: vec![], bcd: 0.0,
+        speeds: speeds.clone(), esu, edu, etu, ftu: etu, fdu: edu, flu: bunit, feu: bunit, edges: vec![], bcd: 0.0, od: ((0.0, 0.0), (0.0, 0.0)),
     };
     for (id, d) in &edges {
         if *id < n_ids && grades.as_ref().map(|g| *id < g.len()).unwrap_or(true) && speeds[*id] > 0.0 {
@@ -874,7 +937,14 @@ fn generate(rng: &mut Rng) -> Spec {
         (etu, edu, own_liquid, bunit)
     };
     let bcd = if rng.chance(1, 10) { 0.0 } else { rng.uniform(0.0, 30000.0) / si_d(&sdu) };
-    Spec { kind, rec, sustain, cap, bunit, query: gen_query(rng), tmsu, grades, ggu, sdu, speeds, esu, edu, etu, ftu, fdu, flu, feu, edges, bcd }
+    let x0 = rng.uniform(-105.5, -104.5) as f32;
+    let y0 = rng.uniform(39.2, 40.2) as f32;
+    let od = if rng.chance(1, 12) {
+        ((x0, y0), (x0, y0))
+    } else {
+        ((x0, y0), (x0 + rng.uniform(-0.2, 0.2) as f32, y0 + rng.uniform(-0.2, 0.2) as f32))
+    };
+    Spec { kind, rec, sustain, cap, bunit, query: gen_query(rng), tmsu, grades, ggu, sdu, speeds, esu, edu, etu, ftu, fdu, flu, feu, edges, bcd, od }
 }
 
 fn plain_rec(ru: EnergyRateUnit, a0: f64, a1: f64, a2: f64, ideal: f64, cache: Option<(usize, Vec<i32>)>) -> RecSpec {
@@ -902,6 +972,7 @@ fn base_spec(kind: Kind, rec: RecSpec, sustain: Option<RecSpec>, cap: f64, bunit
         feu: bunit,
         edges: vec![(0, 1609.34), (1, 1609.34), (2, 1609.34)],
         bcd: 10.0,
+        od: ((-105.0, 39.7), (-104.9, 39.75)),
     }
 }
 
@@ -948,7 +1019,7 @@ fn corpus() -> Vec<Spec> {
 
 pub fn run(ctx: &mut Ctx) -> &'static str {
     let mut specs = corpus();
-    let n = ctx.n(1500, 40000);
+    let n = ctx.n(6000, 150000);
     let n_corpus = specs.len();
     for k in 0..n {
         // the generator is a pure function of (seed, case index)
@@ -968,7 +1039,9 @@ pub fn run(ctx: &mut Ctx) -> &'static str {
             Ok((out, oc)) => {
                 ctx.emit(idx, line.clone(), out);
                 ctx.count(match sp.kind { Kind::Ice => "vehicle_ice", Kind::Bev => "vehicle_bev", Kind::Phev => "vehicle_phev" });
-                if oc.rejected {
+                if oc.engine_rejected {
+                    ctx.count("engine_rejected");
+                } else if oc.rejected {
                     ctx.count("query_rejected");
                 } else {
                     let okn = oc.steps.iter().filter(|s| matches!(s, Step::Ok(..))).count();
